@@ -105,7 +105,7 @@ func mixHash(h, v uint64) uint64 {
 
 func (f *recFSM) slow() {
 	run := f.inc.run
-	if run.cfg.SlowFSM > 0 && !f.inc.dead && run.tape.Chance(rt.StMisc, run.cfg.SlowFSM, 1000) {
+	if run.cfg.SlowFSM > 0 && !f.inc.dead && run.phase == "chaos" && run.tape.Chance(rt.StMisc, run.cfg.SlowFSM, 1000) {
 		simtime.Sleep(time.Duration(1+run.tape.Choose(rt.StMisc, 8)) * run.cfg.HB / 8)
 	}
 }
@@ -253,6 +253,10 @@ type ledgers struct {
 	leaderChanges int
 	lastLeader    uint64
 
+	cfgIdx []uint64 // indices of committed configuration entries, ascending
+	cfgAt  map[uint64]*Config
+	snapsSeen map[string]bool
+
 	probeOp     *opRec
 	probeDone   bool
 	settled     bool
@@ -267,6 +271,8 @@ func (l *ledgers) init(run *simRun) {
 	l.cmdAt = map[uint64][]entKey{}
 	l.everVoter = map[uint64]bool{}
 	l.okUpdates = map[uint64]*opRec{}
+	l.cfgAt = map[uint64]*Config{}
+	l.snapsSeen = map[string]bool{}
 	l.candidates = map[uint64]int{}
 	l.appliedBy = map[uint64]int{}
 }
@@ -546,6 +552,10 @@ func (l *ledgers) markCommitted(i, t uint64, by string) {
 			run.stop = true
 			return
 		}
+		if rec.typ == entryConfig && rec.config != nil {
+			l.cfgIdx = append(l.cfgIdx, l.upto)
+			l.cfgAt[l.upto] = rec.config
+		}
 		if rec.typ == entryUpdate {
 			// the same command may sit in an older, never committed entry too; but it
 			// must not be committed twice (C07 exactly-once)
@@ -572,6 +582,12 @@ func (l *ledgers) observe(ni *nodeInc) {
 		ni.node.maxTermSeen = r.term
 	}
 	o.term, o.votedFor = r.term, r.votedFor
+	if o.snapIndex != r.snaps.index || o.snapTerm != r.snaps.term {
+		l.onSnapshotPublished(ni)
+		if run.stop {
+			return
+		}
+	}
 	if o.prev != r.log.PrevIndex() || o.last != r.lastLogIndex || o.lastTerm != r.lastLogTerm || o.snapIndex != r.snaps.index {
 		l.scanLog(ni, false)
 		if run.stop {
@@ -604,6 +620,116 @@ func (l *ledgers) observe(ni *nodeInc) {
 			}
 		}
 		o.commit = c
+	}
+}
+
+// ---- C12 / C09: published snapshots -----------------------------------------------------------
+
+// configAtIndex: the newest committed configuration entry at or below index.
+func (l *ledgers) configAtIndex(index uint64) *Config {
+	var c *Config
+	for _, i := range l.cfgIdx {
+		if i > index {
+			break
+		}
+		c = l.cfgAt[i]
+	}
+	return c
+}
+
+func sameMembership(a, b *Config) bool {
+	if a.Index != b.Index || a.Term != b.Term || len(a.Nodes) != len(b.Nodes) {
+		return false
+	}
+	for id, n := range a.Nodes {
+		if m, ok := b.Nodes[id]; !ok || m != n {
+			return false
+		}
+	}
+	return true
+}
+
+// onSnapshotPublished checks the snapshot a node just made its latest one.
+func (l *ledgers) onSnapshotPublished(ni *nodeInc) {
+	run := l.run
+	r := ni.r
+	idx, term := r.snaps.index, r.snaps.term
+	if idx == 0 {
+		return
+	}
+	if idx < ni.obs.snapIndex {
+		run.violate("C19", "snapshot_index_decreased", "snapshot_index_decreased", "%v: snapshot index went from %d to %d", ni, ni.obs.snapIndex, idx)
+		return
+	}
+	meta, err := r.snaps.meta()
+	if err != nil || meta.index != idx {
+		run.violate("C12", "snapshot_meta_unreadable", "meta_unreadable", "%v: latest snapshot %d has unreadable label: %v (label index %d)", ni, idx, err, meta.index)
+		return
+	}
+	key := fmt.Sprintf("%d/%d/%d", ni.node.id, ni.n, idx)
+	if l.snapsSeen[key] {
+		return
+	}
+	l.snapsSeen[key] = true
+	run.reach("snapshot_published")
+	// (index, term) is a committed entry
+	ct, ok := l.committed[idx]
+	if !ok {
+		run.violate("C09", "snapshot_of_uncommitted", "snapshot_uncommitted_index", "%v published a snapshot at index %d which nobody has committed (committed prefix: %d)", ni, idx, l.upto)
+		return
+	}
+	if ct != term || meta.term != term {
+		run.violate("C12", "snapshot_term_wrong", "label_term", "%v published snapshot labelled (%d,%d); the committed entry at %d has term %d", ni, idx, meta.term, idx, ct)
+		return
+	}
+	// content: captured at the labelled index, and equal to replaying the log up to it
+	f, err := os.Open(snapFile(r.snaps.dir, idx))
+	if err != nil {
+		run.violate("C12", "snapshot_file_missing", "snap_file_missing", "%v: snapshot %d published but its file cannot be opened: %v", ni, idx, err)
+		return
+	}
+	capIdx, capTerm, cmds, err := readSnapPayload(bufio.NewReader(f))
+	f.Close()
+	if err != nil {
+		run.violate("C09", "snapshot_unreadable", "snap_unreadable", "%v: snapshot %d unreadable: %v", ni, idx, err)
+		return
+	}
+	if capIdx != idx || capTerm != term {
+		run.violate("C12", "snapshot_label_index_wrong", "label_index", "%v: snapshot labelled (%d,%d) holds state captured at (%d,%d)", ni, idx, term, capIdx, capTerm)
+		return
+	}
+	want := 0
+	for _, gi := range l.Gidx {
+		if gi <= idx {
+			want++
+		}
+	}
+	if len(cmds) != want {
+		run.violate("C09", "snapshot_content_wrong", "snap_length", "%v: snapshot at %d holds %d commands; replaying the log to %d gives %d", ni, idx, len(cmds), idx, want)
+		return
+	}
+	for i, id := range cmds {
+		if l.G[i] != id {
+			run.violate("C09", "snapshot_content_wrong", "snap_content", "%v: snapshot at %d: command %d is %d, committed sequence has %d", ni, idx, i+1, id, l.G[i])
+			return
+		}
+	}
+	// membership in force at the snapshot index
+	exp := l.configAtIndex(idx)
+	if exp == nil {
+		run.infra = fmt.Sprintf("oracle: no committed configuration at or below %d", idx)
+		run.stop = true
+		return
+	}
+	if !sameMembership(exp, &meta.config) {
+		kind := "label_config_other"
+		if meta.config.Index < exp.Index {
+			kind = "label_config_older"
+		} else if meta.config.Index > exp.Index {
+			kind = "label_config_newer"
+		}
+		run.violate("C12", "snapshot_config_wrong", kind, "%v: snapshot at index %d is labelled with %v; the configuration in force at that index is %v", ni, idx, meta.config, *exp)
+		return
 	}
 }
 
@@ -778,6 +904,9 @@ func (run *simRun) probe(name string, args []interface{}) {
 		case "candidate.startElection:exit":
 			c := args[0].(*candidate)
 			run.dbg("n%d startElection T%d", c.nid, c.term)
+		case "Raft.onTakeSnapshot:enter":
+			r := args[0].(*Raft)
+			run.dbg("n%d onTakeSnapshot commit=%d snaps=%d committedCfg=%d latestCfg=%d inprogress=%v", r.nid, r.commitIndex, r.snaps.index, r.configs.Committed.Index, r.configs.Latest.Index, r.snapTakenCh != nil)
 		case "Raft.onSnapshotTaken:enter":
 			r := args[0].(*Raft)
 			t := args[1].(snapTaken)
@@ -885,8 +1014,11 @@ func (run *simRun) converged() (bool, string) {
 	if ldr == nil {
 		return false, "no_leader"
 	}
-	if !ldr.idle() {
+	if !ldr.consistent() {
 		return false, "leader_busy"
+	}
+	if run.doneClients < len(run.clients) {
+		return false, "clients_still_running"
 	}
 	if l.probeOp == nil || (l.probeOp.Outcome != outPending && l.probeOp.Outcome != outOK) {
 		// submit a fresh update through an ordinary client
